@@ -219,7 +219,9 @@ func countItems[T any](source []T, filter *mapper.Filter, limit *mapper.Limit) (
 
 	if limit != nil {
 		items = enumerable.Skip(items, limit.Offset)
-		items = enumerable.Take(items, limit.Limit)
+		if limit.Limit != 0 {
+			items = enumerable.Take(items, limit.Limit)
+		}
 	}
 
 	count := 0
